@@ -523,7 +523,20 @@ def form(chk, repo):
     gok = len(guard) == 1 and ast.unparse(guard[0].test).replace(" ", "") == f"{y}<0" and \
         len(guard[0].body) == 1 and isinstance(guard[0].body[0], ast.Return) and \
         isinstance(guard[0].body[0].value, ast.Constant) and guard[0].body[0].value.value == 0
-    chk.decide("C19.FORM", consb + "#negative", True if gok else None, "beta(x, y) = 0 for y < 0", rel=relb, node=bfn, nontrivial=False)
+    gdef = None
+    if not gok and len(guard) == 1 and isinstance(guard[0].test, ast.Compare) and len(guard[0].test.ops) == 1 \
+            and isinstance(guard[0].test.left, ast.Name) and guard[0].test.left.id == y \
+            and isinstance(guard[0].test.comparators[0], ast.Constant) and isinstance(guard[0].test.comparators[0].value, int) \
+            and len(guard[0].body) == 1 and isinstance(guard[0].body[0], ast.Return) \
+            and isinstance(guard[0].body[0].value, ast.Constant) and guard[0].body[0].value.value == 0:
+        c_, op_ = guard[0].test.comparators[0].value, type(guard[0].test.ops[0])
+        # the values of y for which 0 is returned must be exactly the negative ones
+        bound = {ast.Lt: c_ - 1, ast.LtE: c_}.get(op_)
+        if bound is not None:
+            gok, gdef = (bound == -1), True
+    chk.decide("C19.FORM", consb + "#negative", True if gok else (False if gdef else None),
+               "beta(x, y) = 0 for y < 0" + ("" if gok or not gdef else f": the guard `{ast.unparse(guard[0].test)}` returns 0 for other values of y "
+                                             "as well (beta(x, 0) is 1)"), rel=relb, node=bfn, nontrivial=False)
     main = [r for r in rets if not (isinstance(r.value, ast.Constant))]
     fok = None
     if len(main) == 1 and isinstance(main[0].value, ast.BinOp) and isinstance(main[0].value.op, (ast.Div, ast.FloorDiv)):
